@@ -77,6 +77,11 @@ def report_crash(run, m, line, meta, info, layer):
     what, rc, err = info
     site = stack_site(err)
     summ = re.findall(r"(SUMMARY: [^\n]*|runtime error: [^\n]*)", err or "")
+    if site and site[0].startswith("check_permitted_alphabet_") and any("left shift of" in x and "type 'int'" in x for x in summ) \
+            and re.search(r"UniversalString\s*\(", m["text"]):
+        run.known_finding("C04-generated-alphabet-shift", line)
+        run.count("known_C04-generated-alphabet-shift")
+        return
     how = "did not terminate within its CPU budget (hang)" if rc == 99 else "died (rc=%s, %s): sanitizer report, abort or signal" % (rc, what)
     run.violation("crash:%s:%s" % (layer, (site[0] if site else what)),
                   {"what": "decoder process %s on a %s input" % (how, meta["kind"]),
